@@ -146,36 +146,7 @@ def InbHlleCol : Prop :=
   ∀ (d : Int) (j p : Nat), 1 ≤ d → (j : Int) < hlle_j_hi d → (p : Int) < hlle_p_hi d j →
     InIdx (hlle_col_idx (hlleCt d j) p d) (hlle_yi_cols d (hlle_dp d))
 
--- >>> OPEN F-HLLE-CT
-/-- witness: d = 3, outer iteration j = 2, p = 0 writes column 12 of a 10-column matrix
-    (replayed: `hlle N=17 D=3 d=3 k=12`) -/
-theorem inb_hlle_col_refuted : ¬ InbHlleCol := by
-  intro h
-  have := h 3 2 0 (by decide) (by decide) (by decide)
-  revert this
-  decide
-
-/-- what does hold: target_dimension ≤ 2 -/
-theorem inb_hlle_col_partial (d : Int) (j p : Nat) (hd : 1 ≤ d) (hd2 : d ≤ 2)
-    (hj : (j : Int) < hlle_j_hi d) (hp : (p : Int) < hlle_p_hi d j) :
-    InIdx (hlle_col_idx (hlleCt d j) p d) (hlle_yi_cols d (hlle_dp d)) := by
-  simp only [hlle_j_hi, hlle_p_hi] at hj hp
-  have hdcases : d = 1 ∨ d = 2 := by omega
-  rcases hdcases with rfl | rfl
-  · have hj0 : j = 0 := by omega
-    subst hj0
-    have hp0 : p = 0 := by omega
-    subst hp0
-    decide
-  · have hjc : j = 0 ∨ j = 1 := by omega
-    rcases hjc with rfl | rfl
-    · have hpc : p = 0 ∨ p = 1 := by omega
-      rcases hpc with rfl | rfl <;> decide
-    · have hp0 : p = 0 := by omega
-      subst hp0
-      decide
--- <<< OPEN F-HLLE-CT
-/- >>> CLOSED F-HLLE-CT
+-- (closed F-HLLE-CT)
 -- every written column `Yi.col(ct + p + 1 + d)` of the loop nest lies inside the `1 + d + dp` columns of `Yi`
 -- (F-HLLE-CT repaired: `ct += target_dimension - j`)
 theorem inb_hlle_col : InbHlleCol := by
@@ -189,7 +160,6 @@ theorem inb_hlle_col : InbHlleCol := by
   omega
 
 example : violatedSites { defaultConfig .hlle .brute .dense 17 3 with d := 3, k := 12 } = [] := by decide +kernel
-<<< CLOSED F-HLLE-CT -/
 
 /-- the same statement for the repaired step function, independent of the current tree -/
 theorem inb_hlle_col_after_fix (d : Int) (j p : Nat) (hj : (j : Int) < hlle_j_hi d) (hp : (p : Int) < hlle_p_hi d j) :
@@ -222,19 +192,7 @@ theorem hlle_dp_nonneg (d : Int) (hd : 0 ≤ d) : 0 ≤ hlle_dp d := by
 def InbHlleEigvec : Prop :=
   ∀ c : Config, validated c = true → c.method = .hlle → InCount (hlle_eigvec_rightCols c.d) c.k
 
--- >>> OPEN F-DIM-RANK-LOCAL
-/-- witness N = 8, k = 3, d = 5 (replayed: `hlle N=8 D=3 d=5 k=3`) -/
-theorem inb_hlle_eigvec_rightCols_refuted : ¬ InbHlleEigvec := by
-  intro h
-  have := h { defaultConfig .hlle .brute .dense 8 3 with d := 5, k := 3 } (by decide +kernel) rfl
-  revert this; decide +kernel
-
-theorem inb_hlle_eigvec_rightCols_partial (c : Config) (h : validated c = true) (hdk : c.d ≤ c.k) :
-    InCount (hlle_eigvec_rightCols c.d) c.k := by
-  have := validated_d h
-  simp only [InCount, hlle_eigvec_rightCols]; omega
--- <<< OPEN F-DIM-RANK-LOCAL
-/- >>> CLOSED F-DIM-RANK-LOCAL
+-- (closed F-DIM-RANK-LOCAL)
 -- validate() now bounds target_dimension by num_neighbors
 theorem inb_hlle_eigvec_rightCols : InbHlleEigvec := by
   intro c h hm
@@ -242,7 +200,6 @@ theorem inb_hlle_eigvec_rightCols : InbHlleEigvec := by
   rw [hm] at hv
   have : 1 ≤ c.d ∧ c.d < c.k + 1 := by simpa [validateMethod] using hv
   simp only [InCount, hlle_eigvec_rightCols]; omega
-<<< CLOSED F-DIM-RANK-LOCAL -/
 
 /-! ### LTSA (`tangent_weight_matrix`) -/
 
@@ -253,19 +210,7 @@ theorem inb_ltsa_g (d : Int) (hd : 0 ≤ d) : InCount (ltsa_g_rightCols d) (ltsa
 def InbLtsaEigvec : Prop :=
   ∀ c : Config, validated c = true → (c.method = .kltsa ∨ c.method = .lltsa) → InCount (ltsa_eigvec_rightCols c.d) c.k
 
--- >>> OPEN F-DIM-RANK-LOCAL
-/-- witness N = 8, k = 3, d = 5 (replayed: `kltsa N=8 D=3 d=5 k=3`) -/
-theorem inb_ltsa_eigvec_rightCols_refuted : ¬ InbLtsaEigvec := by
-  intro h
-  have := h { defaultConfig .kltsa .brute .dense 8 3 with d := 5, k := 3 } (by decide +kernel) (Or.inl rfl)
-  revert this; decide +kernel
-
-theorem inb_ltsa_eigvec_rightCols_partial (c : Config) (h : validated c = true) (hdk : c.d ≤ c.k) :
-    InCount (ltsa_eigvec_rightCols c.d) c.k := by
-  have := validated_d h
-  simp only [InCount, ltsa_eigvec_rightCols]; omega
--- <<< OPEN F-DIM-RANK-LOCAL
-/- >>> CLOSED F-DIM-RANK-LOCAL
+-- (closed F-DIM-RANK-LOCAL)
 -- validate() now bounds target_dimension by num_neighbors
 theorem inb_ltsa_eigvec_rightCols : InbLtsaEigvec := by
   intro c h hm
@@ -274,7 +219,6 @@ theorem inb_ltsa_eigvec_rightCols : InbLtsaEigvec := by
     rcases hm with hm | hm <;> rw [hm] at hv <;>
       (simp only [validateMethod, Bool.and_eq_true, decide_eq_true_eq] at hv; first | exact hv | exact hv.2)
   simp only [InCount, ltsa_eigvec_rightCols]; omega
-<<< CLOSED F-DIM-RANK-LOCAL -/
 
 /-! ### dense / randomized / generalized solvers -/
 
@@ -300,19 +244,7 @@ def InbPcaCols : Prop :=
   ∀ c : Config, validated c = true → c.method = .pca →
     InCount (dense_largest_rightCols c.d) c.D ∧ InCount (dense_largest_tail c.d) c.D
 
--- >>> OPEN F-DIM-RANK-LINEAR
-/-- witness N = 8, D = 3, d = 5 (replayed: `pca N=8 D=3 d=5`) -/
-theorem inb_pca_rightCols_refuted : ¬ InbPcaCols := by
-  intro h
-  have := h { defaultConfig .pca .brute .dense 8 3 with d := 5 } (by decide +kernel) rfl
-  revert this; decide +kernel
-
-theorem inb_pca_rightCols_partial (c : Config) (h : validated c = true) (hdD : c.d ≤ c.D) :
-    InCount (dense_largest_rightCols c.d) c.D ∧ InCount (dense_largest_tail c.d) c.D := by
-  have := validated_d h
-  simp only [InCount, dense_largest_rightCols, dense_largest_tail]; omega
--- <<< OPEN F-DIM-RANK-LINEAR
-/- >>> CLOSED F-DIM-RANK-LINEAR
+-- (closed F-DIM-RANK-LINEAR)
 -- validate() now bounds target_dimension by the feature dimension
 theorem inb_pca_rightCols : InbPcaCols := by
   intro c h hm
@@ -320,7 +252,6 @@ theorem inb_pca_rightCols : InbPcaCols := by
   rw [hm] at hv
   have : 1 ≤ c.d ∧ c.d < c.D + 1 := by simpa [validateMethod] using hv
   simp only [InCount, dense_largest_rightCols, dense_largest_tail]; omega
-<<< CLOSED F-DIM-RANK-LINEAR -/
 
 /-- landmark selection: `erase(begin + ⌊N·ratio⌋, end)` is inside the N-vector and keeps at least 3 landmarks
     (exact rational product; the `double` product is part of the partial label) -/
@@ -340,19 +271,7 @@ def InbLandmarkCols : Prop :=
   ∀ c : Config, validated c = true → (c.method = .lmds ∨ c.method = .lisomap) →
     InCount (dense_largest_rightCols c.d) (nLandmarks c)
 
--- >>> OPEN F-LANDMARK-DIM
-/-- witness N = 8, ratio = 1/2 (4 landmarks), d = 5 (replayed: `lmds N=8 D=3 d=5 ratio=1/2`) -/
-theorem inb_landmark_rightCols_refuted : ¬ InbLandmarkCols := by
-  intro h
-  have := h { defaultConfig .lmds .brute .dense 8 3 with d := 5 } (by decide +kernel) (Or.inl rfl)
-  revert this; decide +kernel
-
-theorem inb_landmark_rightCols_partial (c : Config) (h : validated c = true) (hd : c.d ≤ nLandmarks c) :
-    InCount (dense_largest_rightCols c.d) (nLandmarks c) := by
-  have := validated_d h
-  simp only [InCount, dense_largest_rightCols]; omega
--- <<< OPEN F-LANDMARK-DIM
-/- >>> CLOSED F-LANDMARK-DIM
+-- (closed F-LANDMARK-DIM)
 -- validate() now bounds target_dimension by the number of landmarks
 theorem inb_landmark_rightCols : InbLandmarkCols := by
   intro c h hm
@@ -361,7 +280,6 @@ theorem inb_landmark_rightCols : InbLandmarkCols := by
     rcases hm with hm | hm <;> rw [hm] at hv <;>
       (have hh := hv; simp only [validateMethod, Bool.and_eq_true, decide_eq_true_eq] at hh; exact hh.2)
   simp only [InCount, dense_largest_rightCols, nLandmarks]; omega
-<<< CLOSED F-LANDMARK-DIM -/
 
 /-- triangulation: rows `i < n_landmarks` of the n_landmarks x d landmark embedding and columns `i < d` -/
 theorem inb_triangulate (nl d i : Int) (h0 : 0 ≤ i) :
@@ -380,25 +298,12 @@ def InbDenseSegment : Prop :=
   ∀ c : Config, validated c = true →
     InBlock (dense_segment_start c.d skip_SmallestEigenvalues) (dense_segment_len c.d skip_SmallestEigenvalues c.N) c.N
 
--- >>> OPEN F-EIG-SEGMENT
-/-- witness N = 5, d = 4: `segment(1, 5)` of 5 eigenvalues (replayed: `klle N=5 D=3 d=4 k=3`) -/
-theorem inb_dense_segment_refuted : ¬ InbDenseSegment := by
-  intro h
-  have := h { defaultConfig .klle .brute .dense 5 3 with d := 4, k := 3 } (by decide +kernel)
-  revert this; decide +kernel
-
-theorem inb_dense_segment_partial (c : Config) (h : validated c = true) (hd : c.d + 2 ≤ c.N) :
-    InBlock (dense_segment_start c.d skip_SmallestEigenvalues) (dense_segment_len c.d skip_SmallestEigenvalues c.N) c.N := by
-  have := validated_d h
-  simp only [InBlock, dense_segment_start, dense_segment_len, skip_SmallestEigenvalues]; omega
--- <<< OPEN F-EIG-SEGMENT
-/- >>> CLOSED F-EIG-SEGMENT
+-- (closed F-EIG-SEGMENT)
 -- the eigenvalue slice `segment(skip, target_dimension)` lies inside the N eigenvalues
 theorem inb_dense_segment : InbDenseSegment := by
   intro c h
   have := validated_d h
   simp only [InBlock, dense_segment_start, dense_segment_len, skip_SmallestEigenvalues]; omega
-<<< CLOSED F-EIG-SEGMENT -/
 
 /-- generalized problem of Laplacian eigenmaps (N x N, skip from the strategy): columns are fine … -/
 theorem inb_gen_le_cols (c : Config) (h : validated c = true) :
@@ -412,24 +317,11 @@ def InbGenSegmentLE : Prop :=
   ∀ c : Config, validated c = true →
     InBlock (gen_segment_start c.d gen_sparse_diag_skip) (gen_segment_len c.d gen_sparse_diag_skip c.N) c.N
 
--- >>> OPEN F-EIG-SEGMENT
-/-- witness N = 5, d = 4 (replayed: `le N=5 D=3 d=4 k=3`) -/
-theorem inb_gen_segment_refuted : ¬ InbGenSegmentLE := by
-  intro h
-  have := h { defaultConfig .le .brute .dense 5 3 with d := 4, k := 3 } (by decide +kernel)
-  revert this; decide +kernel
-
-theorem inb_gen_segment_partial (c : Config) (h : validated c = true) (hd : c.d + 2 ≤ c.N) :
-    InBlock (gen_segment_start c.d gen_sparse_diag_skip) (gen_segment_len c.d gen_sparse_diag_skip c.N) c.N := by
-  have := validated_d h
-  simp only [InBlock, gen_segment_start, gen_segment_len, gen_sparse_diag_skip, skip_SmallestEigenvalues]; omega
--- <<< OPEN F-EIG-SEGMENT
-/- >>> CLOSED F-EIG-SEGMENT
+-- (closed F-EIG-SEGMENT)
 theorem inb_gen_segment : InbGenSegmentLE := by
   intro c h
   have := validated_d h
   simp only [InBlock, gen_segment_start, gen_segment_len, gen_sparse_diag_skip, skip_SmallestEigenvalues]; omega
-<<< CLOSED F-EIG-SEGMENT -/
 
 /-- FULL STATEMENT (false, F-DIM-RANK): NPE / LPP / LLTSA solve a D x D generalized problem (skip = 0) -/
 def InbGenLinearCols : Prop :=
@@ -437,20 +329,7 @@ def InbGenLinearCols : Prop :=
     InCount (gen_smallest_leftCols c.d gen_dense_dense_skip) c.D ∧
     InBlock (gen_segment_start c.d gen_dense_dense_skip) (gen_segment_len c.d gen_dense_dense_skip c.D) c.D
 
--- >>> OPEN F-DIM-RANK-LINEAR
-/-- witness N = 8, D = 2, d = 5 (replayed: `npe N=8 D=2 d=5 k=3`) -/
-theorem inb_gen_linear_cols_refuted : ¬ InbGenLinearCols := by
-  intro h
-  have := h { defaultConfig .npe .brute .dense 8 2 with d := 5, k := 3 } (by decide +kernel) (Or.inl rfl)
-  revert this; decide +kernel
-
-theorem inb_gen_linear_cols_partial (c : Config) (h : validated c = true) (hdD : c.d ≤ c.D) :
-    InCount (gen_smallest_leftCols c.d gen_dense_dense_skip) c.D ∧
-    InBlock (gen_segment_start c.d gen_dense_dense_skip) (gen_segment_len c.d gen_dense_dense_skip c.D) c.D := by
-  have := validated_d h
-  simp only [InCount, InBlock, gen_smallest_leftCols, gen_segment_start, gen_segment_len, gen_dense_dense_skip]; omega
--- <<< OPEN F-DIM-RANK-LINEAR
-/- >>> CLOSED F-DIM-RANK-LINEAR
+-- (closed F-DIM-RANK-LINEAR)
 -- validate() of NPE / LPP / LLTSA now bounds target_dimension by the feature dimension
 theorem inb_gen_linear_cols : InbGenLinearCols := by
   intro c h hm
@@ -459,7 +338,6 @@ theorem inb_gen_linear_cols : InbGenLinearCols := by
     rcases hm with hm | hm | hm <;> rw [hm] at hv <;>
       (have hh := hv; simp only [validateMethod, Bool.and_eq_true, decide_eq_true_eq] at hh; first | exact hh | exact hh.1 | exact hh.2)
   simp only [InCount, InBlock, gen_smallest_leftCols, gen_segment_start, gen_segment_len, gen_dense_dense_skip]; omega
-<<< CLOSED F-DIM-RANK-LINEAR -/
 
 /-- randomized solver: every column selection is inside the sketch of `d + skip` columns, for any d, skip ≥ 0 -/
 theorem inb_randomized (d skip : Int) (hd : 0 ≤ d) (hs : 0 ≤ skip) :
@@ -535,17 +413,7 @@ theorem inb_tsne_posf_partial (c : Config) (hdims : qt_no_dims ≤ c.d)
   rw [e]
   exact ⟨h1, h1, h2⟩
 
--- >>> OPEN F-TSNE-DIMS
-/-- witness N = 8, target_dimension = 1, θ = 1/2, last sample, second coordinate
-    (replayed: `tsne N=8 D=3 d=1 perp=2 theta=1/2`) -/
-theorem inb_tsne_posf_refuted : ¬ InbTsneBH := by
-  intro h
-  have := h { defaultConfig .tsne .brute .dense 8 3 with d := 1, perp := 2 } (by decide +kernel) rfl (by decide +kernel)
-    7 1 (by decide) (by decide) (by decide) (by decide +kernel)
-  revert this; decide +kernel
-
--- <<< OPEN F-TSNE-DIMS
-/- >>> CLOSED F-TSNE-DIMS
+-- (closed F-TSNE-DIMS)
 -- validate() now requires target_dimension = 2 when θ > 0
 theorem inb_tsne_posf : InbTsneBH := by
   intro c h hm hth n dd hn0 hn hd0 hd
@@ -560,7 +428,6 @@ theorem inb_tsne_posf : InbTsneBH := by
     · exact absurd (lt_of_le_of_ne hth0 (Ne.symm hth)) h1
     · exact h1.1
   exact inb_tsne_posf_partial c (by simpa [qt_no_dims] using hd2) n dd hn0 hn hd0 hd
-<<< CLOSED F-TSNE-DIMS -/
 
 /-- FULL STATEMENT (false, new — also hit with θ = 0): the exact error evaluation reads `Y` as N x 2 -/
 def InbTsneExactError : Prop :=
@@ -576,21 +443,11 @@ theorem inb_tsne_exact_error_partial (c : Config) (hdims : tsne_exact_error_dims
   have e : c.d * c.N = c.N * c.d := by ring
   rw [e]; exact h1
 
--- >>> OPEN F-TSNE-DIMS
-/-- witness N = 8, target_dimension = 1, θ = 0 (replayed: `tsne N=8 D=3 d=1 perp=2 theta=0`) -/
-theorem inb_tsne_exact_error_refuted : ¬ InbTsneExactError := by
-  intro h
-  have := h { defaultConfig .tsne .brute .dense 8 3 with d := 1, perp := 2, theta := 0 } (by decide +kernel) rfl (by decide +kernel)
-    7 1 (by decide) (by decide) (by decide) (by decide +kernel)
-  revert this; decide +kernel
-
--- <<< OPEN F-TSNE-DIMS
-/- >>> CLOSED F-TSNE-DIMS
+-- (closed F-TSNE-DIMS)
 -- the exact error evaluation now reads `Y` with its own width
 theorem inb_tsne_exact_error : InbTsneExactError := by
   intro c _ _ _ n dd hn0 hn hd0 hd
   exact inb_tsne_exact_error_partial c (by simp [tsne_exact_error_dims]) n dd hn0 hn hd0 hd
-<<< CLOSED F-TSNE-DIMS -/
 
 /-- sparse similarities: `K = ⌊3·perplexity⌋ ≤ N - 1` neighbours are requested (+ the point itself), so
     `distances[m+1]`, `cur_P[m]`, `col_P[n*K + m]` are in range for `m < K` -/
@@ -619,19 +476,7 @@ def InbMsRows : Prop :=
   ∀ c : Config, validated c = true → c.method = .ms →
     InCount (ms_row_hi c.d) c.D ∧ InCount (ms_topRows c.d) c.D ∧ InCount (ms_bottomRows c.D c.d) c.D
 
--- >>> OPEN F-DIM-RANK-LOCAL
-/-- witness N = 8, D = 2, d = 3 (replayed: `ms N=8 D=2 d=3 k=3`) -/
-theorem inb_ms_rows_refuted : ¬ InbMsRows := by
-  intro h
-  have := h { defaultConfig .ms .brute .dense 8 2 with d := 3, k := 3 } (by decide +kernel) rfl
-  revert this; decide +kernel
-
-theorem inb_ms_rows_partial (c : Config) (h : validated c = true) (hdD : c.d ≤ c.D) :
-    InCount (ms_row_hi c.d) c.D ∧ InCount (ms_topRows c.d) c.D ∧ InCount (ms_bottomRows c.D c.d) c.D := by
-  have := validated_d h
-  simp only [InCount, ms_row_hi, ms_topRows, ms_bottomRows]; omega
--- <<< OPEN F-DIM-RANK-LOCAL
-/- >>> CLOSED F-DIM-RANK-LOCAL
+-- (closed F-DIM-RANK-LOCAL)
 -- validate() now bounds target_dimension by the feature dimension
 theorem inb_ms_rows : InbMsRows := by
   intro c h hm
@@ -641,19 +486,11 @@ theorem inb_ms_rows : InbMsRows := by
   simp only [validateMethod, Bool.and_eq_true, decide_eq_true_eq] at hh
   have := hh.2
   simp only [InCount, ms_row_hi, ms_topRows, ms_bottomRows]; omega
-<<< CLOSED F-DIM-RANK-LOCAL -/
 
 /-! ### the executable site evaluator agrees with the statements above on the witnesses -/
 
--- >>> OPEN F-HLLE-CT
-example : violatedSites { defaultConfig .hlle .brute .dense 17 3 with d := 3, k := 12 } = ["hlle_col"] := by decide +kernel
--- <<< OPEN F-HLLE-CT
--- >>> OPEN F-EIG-SEGMENT
-example : violatedSites { defaultConfig .klle .brute .dense 5 3 with d := 4, k := 3 } = ["dense_segment"] := by decide +kernel
--- <<< OPEN F-EIG-SEGMENT
-/- >>> CLOSED F-EIG-SEGMENT
+-- (closed F-EIG-SEGMENT)
 example : violatedSites { defaultConfig .klle .brute .dense 5 3 with d := 4, k := 3 } = [] := by decide +kernel
-<<< CLOSED F-EIG-SEGMENT -/
 example : violatedSites { defaultConfig .mds .brute .dense 17 3 with d := 16 } = [] := by decide +kernel
 
 /-! ## §3 exceptions, foreign throws, process-terminating calls -/
@@ -663,21 +500,10 @@ example : violatedSites { defaultConfig .mds .brute .dense 17 3 with d := 16 } =
 def FrontEndErrorsDocumented : Prop :=
   ∀ p ∈ rethrowMap, p.2 ∈ documentedThrows ∨ p.2 = emptyInputThrows
 
--- >>> OPEN F-DOC-WPTE
-/-- witness: `stichwort::wrong_parameter_type_error` is rethrown as `tapkee::wrong_parameter_type_error`, which the
-    `@throw` block does not mention (replayed: `wrongtype=1`) -/
-theorem front_end_errors_documented_refuted : ¬ FrontEndErrorsDocumented := by
-  unfold FrontEndErrorsDocumented; decide
-
-theorem front_end_errors_documented_partial :
-    ∀ p ∈ rethrowMap, p.2 ≠ "wrong_parameter_type_error" → p.2 ∈ documentedThrows ∨ p.2 = emptyInputThrows := by
-  decide
--- <<< OPEN F-DOC-WPTE
-/- >>> CLOSED F-DOC-WPTE
+-- (closed F-DOC-WPTE)
 -- every class embed.hpp rethrows is in its documented `@throw` list
 theorem front_end_errors_documented : FrontEndErrorsDocumented := by
   unfold FrontEndErrorsDocumented; decide
-<<< CLOSED F-DOC-WPTE -/
 
 /-- every `throw` under include/tapkee raises a documented class or the empty-input error, except exactly one
     foreign throw: `std::runtime_error("Wrong size")` in manifold sculpting, guarded by `(end - begin) != n` -/
